@@ -279,6 +279,14 @@ def run_c08(run_, rng, tier):
         if rng.random() < 0.3:
             s0["opts"]["ro"] = "fail"
         scns.append(s0)
+    # no temporary file can be made: TMPDIR names nothing / a file / a directory that takes no entry; the limit on open files
+    # is reached while a long git stream is read (each section keeps its result open until the end of the run)
+    for env_ in ({"TMPDIR": "/nonexistent-dir/tmp"}, {"TMPDIR": "p.diff"}, {"TMPDIR": "/proc/1"}, {"TMPDIR": ""}):
+        for t in (b"--- f\n+++ f\n@@ -1 +1 @@\n-a\n+A\n", b"diff --git a/f b/f\n--- a/f\n+++ b/f\n@@ -1 +1 @@\n-a\n+A\n", b"--- f\n+++ f\n@@ -1 +1 @@\n-nomatch\n+A\n"):
+            scns.append(dict(tree={"f": ("R", 0o644, b"a\nb\nc\n"), "p.diff": ("R", 0o644, t)}, opts={"i": "p.diff", "p": 1, "f": 1}, umask=0o022, env=env_, no_model=True))
+    many = b"".join(b"diff --git a/n%d b/n%d\nnew file mode 100644\n--- /dev/null\n+++ b/n%d\n@@ -0,0 +1 @@\n+x\n" % (i_, i_, i_) for i_ in range(60))
+    for lim in (16, 24, 40):
+        scns.append(dict(tree={"p.diff": ("R", 0o644, many)}, opts={"i": "p.diff", "p": 1}, umask=0o022, nofile=lim, no_model=True))
     import wide
     scns += [wide.wide_scenario(rng) for _ in range(300 if q else 4000)]
     t0 = time.time()
@@ -291,6 +299,9 @@ def run_c08(run_, rng, tier):
         if r.get("timed_out"):
             bad.append((i, "did not terminate within 10 s on a patch of %d bytes%s" % (psize(s), " (standard input is a directory: every read fails)" if s.get("stdin_is") else ""),
                         dict(scenario=describe(s), stdin_is=s.get("stdin_is"))))
+        elif r["exit"] < 0 or b"out of memory" in r["stderr"] or b"bad_alloc" in r["stderr"]:
+            bad.append((i, "a patch of %d bytes: the run %s" % (psize(s), "was ended by signal %d" % -r["exit"] if r["exit"] < 0 else "ran out of memory (limit 3 GiB): " + r["stderr"].decode("latin-1")[-100:].strip()),
+                        dict(scenario=describe(s), stderr=r["stderr"].decode("latin-1")[-300:])))
         elif len(r["stdout"]) > 200000:
             bad.append((i, "produced %d bytes of output for a patch of %d bytes" % (len(r["stdout"]), psize(s)), dict(scenario=describe(s))))
     model = run_model([l2.model_line(s) for s in scns])
